@@ -486,6 +486,15 @@ def run(res, tier):
         f0 = merged[0]["fns"][0]
         res.sample_case({"sweep": tag, "behaviours": len(libs), "libraries": len(merged), "example": f0["cname"],
                          "predicted": {k: f0["pred"].get(k) for k in ("ident", "link", "sig", "code", "rustty")}})
+    # ---- colliding identifiers: `match` next to `match_`, `f$x` next to `f_x_`, both orders (libraries of two
+    # declarations with the functions_seen / overload tables of Symbols.FnStep live between them)
+    types, libs = generate(res, "Gen_Funcs_collide.cfg")
+    uniq = {json.dumps(l, sort_keys=True): l for l in libs}
+    libs = [uniq[k] for k in sorted(uniq)]
+    if not any(f["pred"].get("ident", "").endswith("_1") for l in libs for f in l["fns"]):
+        raise C.ToolError("Gen_Funcs_collide generated no renamed duplicate")
+    total_behaviours += len(libs)
+    replay_batch(res, types, libs, "collide", counts)
     replay_model_counterexamples(res)
     corpus(res, tier)
     # ---- random libraries (TLC -simulate): all kinds, name shapes and options together -----------------
